@@ -241,8 +241,8 @@ func runLifecycleBehaviour(lg *lcLog, b lcBehaviour, scratch string) {
 		return
 	}
 	domain := lcDomain(b.ID)
-	root.SMTP.Addr, root.SMTP.Domain, root.SMTP.Timeout = "127.0.0.1:0", domain, 60*time.Second
-	root.POP3.Addr, root.POP3.Domain, root.POP3.Timeout = "127.0.0.1:0", domain, 60*time.Second
+	root.SMTP.Addr, root.SMTP.Domain, root.SMTP.Timeout = "127.0.0.1:0", domain, 600*time.Second
+	root.POP3.Addr, root.POP3.Domain, root.POP3.Timeout = "127.0.0.1:0", domain, 600*time.Second
 	sleep := 200 * time.Millisecond
 	if b.SleepMS > 0 {
 		sleep = time.Duration(b.SleepMS) * time.Millisecond
@@ -537,6 +537,7 @@ func runIsolated(lg *lcLog, b lcBehaviour, seed int64, scratch string) {
 	}
 	os.Remove(tf)
 	cmd := exec.Command(os.Args[0], "lifecycle", bf, tf)
+	cmd.Env = append(os.Environ(), "VH_LC_SCRATCH="+scratch)
 	var stderr bytes.Buffer
 	cmd.Stderr = &stderr
 	err := cmd.Run()
@@ -585,11 +586,15 @@ func cmdLifecycle(args []string) error {
 	if st, err := os.Stat("/dev/shm"); err == nil && st.IsDir() {
 		base = "/dev/shm"
 	}
-	scratch, err := os.MkdirTemp(base, "vh-lifecycle-")
-	if err != nil {
-		return err
+	// a child process (runIsolated) works inside its parent's scratch directory: nothing is left behind when it dies
+	scratch := os.Getenv("VH_LC_SCRATCH")
+	if scratch == "" {
+		scratch, err = os.MkdirTemp(base, "vh-lifecycle-")
+		if err != nil {
+			return err
+		}
+		defer os.RemoveAll(scratch)
 	}
-	defer os.RemoveAll(scratch)
 	smtp.VerifSpawnHook = theGate.hook
 	pop3.VerifSpawnHook = theGate.hook
 	for _, b := range in.Behaviours {
